@@ -7,20 +7,31 @@
 // when the golib decoder under test accepts it and consumes every byte of it; where golib can
 // build the same object its own writer output is compared with the reference bytes.
 //
+// Every decode below is performed by the decode server (server.go), a child process that can
+// be killed: the worker process itself never calls a golib decoder.
+//
 // Fault space 1 — truncation: every strict prefix of every admitted encoding is decoded
 // (encodings > 4 KiB: every offset of the first and last KiB, ±8 around every field-map
 // entry, a stride through the rest). Oracle: the decode must panic (recoverably). A normal
 // return is `<decoder>:prefix-accepted@<field>` unless the reference encoder marks the cut
-// offset as the end of a complete older/shorter message.
+// offset as the end of a complete older/shorter message. A prefix decode that ends the
+// process, burns 20 s of CPU or allocates beyond the bound is `…:fatal@cut-in-<field>`,
+// `…:nonterminating@cut-in-<field>`, `…:alloc-from-count@cut-in-<field>`.
 //
 // Fault space 2 — hostile fields: every length, count, type-tag, version and decimal-class
 // entry of the field map is overwritten with hostile values (0, 1, −1, 0x7f…, 0x80…,
-// all-ones, blob markers 253/254/255, 2^31−1, 2^31, 2^62, unknown and foreign tags; decimal
-// counts and blob prefixes are also replaced by longer hostile forms); encodings ≤ 256 bytes
-// additionally get every byte position overwritten with six hostile byte values. Each
-// mutant is decoded by the decode server (server.go). Oracles: no process-fatal event
-// (`…:fatal@…`), allocation ≤ 64·len(input) + 1 MiB (`…:alloc-from-count@…`), CPU of one
-// decode ≤ 20 s (`…:nonterminating@…`).
+// all-ones, blob markers 253/254/255, 2^31−1 and lengths just below it / around
+// 2^31−(read position), 2^31, 2^62, unknown and foreign tags; decimal counts and blob
+// prefixes are also replaced by longer hostile forms); encodings ≤ 256 bytes additionally get
+// every byte position overwritten with six hostile byte values; encodings with two or more
+// element counts get five multi-field mutants (every count at once, allCounts). Oracles: no
+// process-fatal event (`…:fatal@…`), allocation ≤ 64·len(input) + 1 MiB
+// (`…:alloc-from-count@…`), CPU of one decode ≤ 20 s (`…:nonterminating@…`).
+//
+// Connection mode (net.go): a sample of strict prefixes and the complete encoding are
+// delivered in fragments over a net.Pipe to the decoder reading with io.NewDataInputNet; the
+// peer then closes or stays silent until the decoder's read deadline expires. Oracles:
+// `…:prefix-accepted/net-mode@…`, `…:nonterminating/net-mode@…`, `…:fatal/net-mode@…`.
 package main
 
 import (
@@ -431,9 +442,15 @@ type mutant struct {
 	off   int
 	del   int
 	ins   []byte
+	full  []byte // multi-field mutants: the whole input
 }
 
-func (m *mutant) bytes(valid []byte) []byte { return splice(valid, m.off, m.del, m.ins) }
+func (m *mutant) bytes(valid []byte) []byte {
+	if m.full != nil {
+		return m.full
+	}
+	return splice(valid, m.off, m.del, m.ins)
+}
 
 func be(width int, v uint64) []byte {
 	out := make([]byte, width)
@@ -487,7 +504,7 @@ func mutantsOf(b []byte, f refcodec.Field, isDecimalCount bool) []mutant {
 		if del == len(ins) && bytes.Equal(b[f.Off:f.Off+del], ins) {
 			return // the valid encoding itself
 		}
-		out = append(out, mutant{where, what, f.Off, del, ins})
+		out = append(out, mutant{where: where, what: what, off: f.Off, del: del, ins: ins})
 	}
 	raw := func(vals ...uint64) {
 		for _, v := range vals {
@@ -570,6 +587,101 @@ func near31(pos int) []uint64 {
 	return out
 }
 
+// allCountsWhere: the field name of the multi-field mutants
+const allCountsWhere = "count/all-counts"
+
+// allCounts builds the multi-field mutants of one encoding: EVERY element count of the field
+// map is overwritten at once. A single hostile count is stopped by the first check it meets;
+// counts that each pass their own check (≤ the unread rest, or ≤ what the field can hold) can
+// still add up when containers nest, because a container sizes its table before it reads its
+// elements. Variants: every count := the number of bytes that follow it in the mutated input
+// (the most any "fits into the rest" check lets through), := a half / a quarter / an eighth of
+// that, and := the largest positive value of the field (decimal counts: 32767).
+func allCounts(e *enc) []mutant {
+	decAt := map[int]bool{}
+	for _, f := range e.Fields {
+		if f.Kind == kDec {
+			decAt[f.Off] = true
+		}
+	}
+	type cf struct {
+		off, w int
+		dec    bool
+	}
+	var cs []cf
+	for _, f := range e.Fields {
+		if f.Kind != kCount || f.Width <= 0 || f.Off+f.Width > len(e.B) {
+			continue
+		}
+		isDec := decAt[f.Off] && f.Width == 1+int(e.B[f.Off])
+		cs = append(cs, cf{f.Off, f.Width, isDec})
+	}
+	if len(cs) < 2 {
+		return nil
+	}
+	sort.Slice(cs, func(i, j int) bool { return cs[i].off < cs[j].off })
+	keep := cs[:0]
+	end := 0
+	for _, x := range cs { // drop entries overlapping an earlier one
+		if x.off >= end {
+			keep = append(keep, x)
+			end = x.off + x.w
+		}
+	}
+	cs = keep
+	build := func(val func(rest int, x cf) uint64) []byte {
+		// from the last count to the first: what follows a count is final when it is written
+		var rev [][]byte
+		tail := 0
+		hi := len(e.B)
+		for i := len(cs) - 1; i >= 0; i-- {
+			x := cs[i]
+			seg := e.B[x.off+x.w : hi]
+			rev = append(rev, seg)
+			tail += len(seg)
+			v := val(tail, x)
+			var enc []byte
+			if x.dec {
+				enc = decimalBytes(int64(v))
+			} else {
+				if max := uint64(1)<<(8*uint(x.w)-1) - 1; x.w < 8 && v > max {
+					v = max
+				}
+				enc = be(x.w, v)
+			}
+			rev = append(rev, enc)
+			tail += len(enc)
+			hi = x.off
+		}
+		out := make([]byte, 0, tail+hi)
+		out = append(out, e.B[:hi]...)
+		for i := len(rev) - 1; i >= 0; i-- {
+			out = append(out, rev[i]...)
+		}
+		return out
+	}
+	var out []mutant
+	for _, div := range []int{1, 2, 4, 8} {
+		div := div
+		out = append(out, mutant{where: allCountsWhere, what: fmt.Sprintf("every element count := (bytes that follow it)/%d", div),
+			full: build(func(rest int, x cf) uint64 { return uint64(rest / div) })})
+	}
+	out = append(out, mutant{where: allCountsWhere, what: "every element count := the largest positive value of its field (decimal counts: 32767)",
+		full: build(func(rest int, x cf) uint64 {
+			if x.dec {
+				return 32767
+			}
+			return 1<<63 - 1 // clipped to the field
+		})})
+	keepM := out[:0]
+	for _, m := range out {
+		if len(m.full) <= 2*maxEnc && !bytes.Equal(m.full, e.B) {
+			keepM = append(keepM, m)
+		}
+	}
+	return keepM
+}
+
 func isTarget(k string) bool {
 	return k == kLen || k == kCount || k == kTag || k == kVer || k == kDec
 }
@@ -618,10 +730,14 @@ func corruptions(e *enc, r *vlib.Rand) []mutant {
 				if e.B[p] == v {
 					continue
 				}
-				out = append(out, mutant{where, fmt.Sprintf("byte at offset %d := 0x%02x", p, v), p, 1, []byte{v}})
+				out = append(out, mutant{where: where, what: fmt.Sprintf("byte at offset %d := 0x%02x", p, v), off: p, del: 1, ins: []byte{v}})
 			}
 		}
 		c.Count("encodings_every_byte_overwritten", 1)
+	}
+	if ac := allCounts(e); len(ac) > 0 {
+		out = append(out, ac...)
+		c.Count("encodings_all_counts_overwritten", 1)
 	}
 	return out
 }
@@ -780,6 +896,10 @@ func admit(id string, e *enc) bool {
 		c.Count("alloc_bound_exceeded", 1)
 		fail(d.Name+":alloc-from-count@valid-encoding", fmt.Sprintf("decoding a valid %d-byte encoding allocated %d bytes (bound 64·len+1 MiB = %d)", len(e.B), rs.m.Alloc, bound),
 			detail(map[string]interface{}{"allocated": rs.m.Alloc, "bound": bound}))
+		// reported once, here: its prefixes and mutants would repeat the same finding under
+		// hundreds of field keys
+		c.Count("encodings_not_expanded_valid_form_beyond_bound", 1)
+		return false
 	}
 	if rs.m.CPU > cpuLimit {
 		answeredLate(d, d.Name+"|valid-encoding")
